@@ -2,4 +2,22 @@
 -- re-check all theorems.
 import TypedpyModel.Props.C01
 import TypedpyModel.Props.C02
+import TypedpyModel.Props.C03
+import TypedpyModel.Props.C04
+import TypedpyModel.Props.C05
+import TypedpyModel.Props.C06
+import TypedpyModel.Props.C07
+import TypedpyModel.Props.C08
+import TypedpyModel.Props.C09
+import TypedpyModel.Props.C10
+import TypedpyModel.Props.C11
+import TypedpyModel.Props.C12
+import TypedpyModel.Props.C13
+import TypedpyModel.Props.C14
+import TypedpyModel.Props.C15
+import TypedpyModel.Props.C16
+import TypedpyModel.Props.C17
+import TypedpyModel.Props.C18
+import TypedpyModel.Props.C19
+import TypedpyModel.Props.C20
 import TypedpyModel.Drive.Construct
